@@ -45,7 +45,10 @@ Doc(fmt, tfm, skipdef, fault, tests) ==
 \*  dirarg : the documents are not named one by one; the directory that contains them (and a nested directory, and
 \*           files that are no test documents) is given instead -- the order among them is then unspecified
 Run(docs, tcli, pre, app, via, noshell) ==
-    [docs |-> docs, tcli |-> tcli, pre |-> pre, app |-> app, via |-> via, noshell |-> noshell, dirarg |-> FALSE]
+    [docs |-> docs, tcli |-> tcli, pre |-> pre, app |-> app, via |-> via, noshell |-> noshell, dirarg |-> FALSE, compat |-> FALSE]
+\*  compat : --cram-compat is given: Markdown documents are executed like Cram documents (one script per document, Cram
+\*           format defaults); their syntax (front-matter, inline configuration) stays Markdown
+Script(s, i) == s.docs[i].fmt = "cram" \/ s.compat
 
 HasShared(s, i) == s.via = "cli" \/ (i = 1 /\ s.docs[1].fmt = "md")   \* front-matter exists only in Markdown
 Assembled(s, i) == (IF HasShared(s, i) THEN s.pre ELSE <<>>) \o s.docs[i].tests
@@ -57,9 +60,13 @@ TotalLimit(s, i) ==
                ELSE IF s.docs[i].tfm # None THEN s.docs[i].tfm ELSE DefaultTotal
     IN IF raw = 0 THEN None ELSE raw
 
-\* effective skip code of a test case: inline beats document default beats 80
-SkipCode(s, i, tc) == IF tc.skip # None THEN tc.skip
-                      ELSE IF s.docs[i].skipdef # None THEN s.docs[i].skipdef ELSE DefaultSkip
+\* effective skip code of a test case: inline beats document default beats 80 (the format default, given to every test case)
+OwnSkip(s, i, tc) == IF tc.skip # None THEN tc.skip ELSE IF s.docs[i].skipdef # None THEN s.docs[i].skipdef ELSE DefaultSkip
+\* the script executor (Cram, --cram-compat) runs ONE script with ONE configuration: it refuses the document (execution
+\* error) when the test cases do not all have the same value
+InconsistentSkip(s, i) == LET T == Assembled(s, i) IN
+                          Script(s, i) /\ \E x, y \in 1..Len(T) : OwnSkip(s, i, T[x]) # OwnSkip(s, i, T[y])
+SkipCode(s, i, tc) == OwnSkip(s, i, tc)
 
 \* is the configured stream accepted by the expectations?  (by construction of the scenario)
 StreamNonEmpty(tc) == \/ tc.stream = "stdout" /\ tc.out \in {"stdout", "both"}
@@ -91,8 +98,9 @@ SkipsAt(s, i, x)   == LET tc == Assembled(s, i)[x] IN ~tc.det /\ tc.beh \in {"ex
 DiesAt(s, i, x)    == LET tc == Assembled(s, i)[x] IN ~tc.det /\ tc.beh = "signal"
 HasFault(s) == \/ s.noshell
                \/ (\E i \in 1..Len(s.docs) : s.docs[i].fault # "no")
-               \/ (\E j \in 1..Len(s.docs) : s.docs[j].fmt = "cram" /\ \E x \in 1..Len(Assembled(s, j)) :
+               \/ (\E j \in 1..Len(s.docs) : Script(s, j) /\ \E x \in 1..Len(Assembled(s, j)) :
                        Assembled(s, j)[x].t # None \/ Assembled(s, j)[x].det)
+               \/ (\E j \in 1..Len(s.docs) : InconsistentSkip(s, j))
 
 \* ---- C05
 \* a test case reported as succeeded really exited with the expected code and acceptable output, and ran
@@ -118,9 +126,9 @@ ExceedsAt(s, i, x) ==    \* the command at x, if reached, runs longer than an ap
     LET tc == Assembled(s, i)[x]
         before == 0      \* replayed scenarios have at most one slow test case per document
         T == TotalLimit(s, i)
-    IN ~tc.det /\ tc.dur > 0 /\ ((tc.t # None /\ s.docs[i].fmt = "md" /\ tc.dur > tc.t) \/ (T # None /\ tc.dur > T))
+    IN ~tc.det /\ tc.dur > 0 /\ ((tc.t # None /\ ~Script(s, i) /\ tc.dur > tc.t) \/ (T # None /\ tc.dur > T))
 FirstLimit(s, i, x) == LET tc == Assembled(s, i)[x] IN
-    MinDefined(IF s.docs[i].fmt = "md" THEN tc.t ELSE None, TotalLimit(s, i))
+    MinDefined(IF ~Script(s, i) THEN tc.t ELSE None, TotalLimit(s, i))
 RECURSIVE WaitUpTo(_, _, _)
 WaitUpTo(s, i, x) == IF x = 0 THEN 0 ELSE Assembled(s, i)[x].wait + WaitUpTo(s, i, x - 1)
 C14ok(s, o) ==
@@ -130,11 +138,11 @@ C14ok(s, o) ==
             reached(x) == \A y \in 1..(x - 1) : ~SkipsAt(s, i, y) /\ ~DiesAt(s, i, y) /\ ~ExceedsAt(s, i, y)
         IN /\ \A x \in 1..Len(o.res[i]) :
                \* a command inside all limits is never reported as timed out
-               /\ (o.res[i][x] = "timeout" => IF s.docs[i].fmt = "md" THEN ExceedsAt(s, i, x) ELSE slow # {})
+               /\ (o.res[i][x] = "timeout" => IF ~Script(s, i) THEN ExceedsAt(s, i, x) ELSE slow # {})
                \* one that exceeds a limit (and is reached) is reported as timeout = failed ...
-               /\ (ExceedsAt(s, i, x) /\ reached(x) /\ s.docs[i].fmt = "md" => o.res[i][x] = "timeout")
+               /\ (ExceedsAt(s, i, x) /\ reached(x) /\ ~Script(s, i) => o.res[i][x] = "timeout")
                \* ... and the test cases after it are skipped, not passed, and were not run
-               /\ (\E y \in 1..(x - 1) : ExceedsAt(s, i, y) /\ reached(y)) /\ s.docs[i].fmt = "md"
+               /\ (\E y \in 1..(x - 1) : ExceedsAt(s, i, y) /\ reached(y)) /\ ~Script(s, i)
                      => o.res[i][x] \in {"skipped", "none"} /\ ~\E z \in 1..Len(o.ran[i]) : o.ran[i][z] = A[x].id
            \* the run fails
            /\ ((\E x \in slow : reached(x)) /\ ~o.aborted => o.exit = 50)
